@@ -65,6 +65,8 @@ func main() {
 		fmt.Printf("steps %d classes %v\n", rep.Steps, sortedIntMap(rep.Classes))
 	case "shrink":
 		os.Exit(cmdShrink(os.Args[2:]))
+	case "witness":
+		os.Exit(cmdWitness(os.Args[2:]))
 	case "race":
 		os.Exit(cmdRace(os.Args[2:]))
 	case "list":
@@ -153,6 +155,20 @@ func cmdChild(args []string) int {
 			// shrink the witness (bounded effort); the full history is kept next to it
 			if minp := shrinkHistory(w, def, rep.runner.Hist, rep.Viol[0].Assert, strings.TrimSuffix(p, ".json")+".min.json", 45*time.Second); minp != "" {
 				rep.Replay = minp
+			}
+		}
+		if kd := os.Getenv("VMON_SAVE_KNOWN"); kd != "" && len(rep.Viol) == 0 {
+			// collecting witnesses of recorded findings (tooling only; never used by a registered check)
+			_ = os.MkdirAll(kd, 0o755)
+			for _, kh := range rep.Known {
+				p := filepath.Join(kd, fmt.Sprintf("%s-%s.json", kh.Prop, kh.Cause))
+				if st, err := os.Stat(p); err == nil && st.Size() > 0 {
+					if old, err := LoadHistory(p); err == nil && len(old.Steps) <= len(rep.runner.Hist.Steps) {
+						continue
+					}
+				}
+				rep.runner.Hist.Note = "witness of recorded finding " + kh.Prop + "/" + kh.Cause + ": " + kh.Msg
+				_ = rep.runner.Hist.Save(p)
 			}
 		}
 		b, _ := json.Marshal(rep)
@@ -460,6 +476,11 @@ func cmdCheck(id, tier string) int {
 		}
 		fh.Close()
 	}
+	// committed witnesses of the recorded findings of this property (findings/<ID>-<cause>.json) are re-executed
+	// on the current tree: each listed finding is shown against the real code on every run, and a finding that
+	// no longer reproduces (repaired upstream) is reported as such instead of being assumed
+	generated := sum.Histories
+	witnessNotes := replayWitnesses(id, sum)
 	crashViol := []string{}
 	for j, twice := range crashJobs {
 		if twice {
@@ -477,8 +498,8 @@ func cmdCheck(id, tier string) int {
 			}
 		}
 	}
-	if sum.Histories < len(jobs) && len(crashViol) == 0 {
-		inconclusive = append(inconclusive, fmt.Sprintf("only %d of %d histories reported", sum.Histories, len(jobs)))
+	if generated < len(jobs) && len(crashViol) == 0 {
+		inconclusive = append(inconclusive, fmt.Sprintf("only %d of %d histories reported", generated, len(jobs)))
 	}
 	inconclusive = append(inconclusive, sum.Inconcl...)
 
@@ -548,10 +569,49 @@ func cmdCheck(id, tier string) int {
 		}
 		exit = 2
 	}
+	for _, n := range witnessNotes {
+		fmt.Println("NOTE:", n)
+	}
 	if exit == 0 {
 		fmt.Printf("%s %s: held on %d histories, %d steps, %d oracle evaluations, %d distinct situation classes (seed %d, %.1fs)\n", id, tier, sum.Histories, sum.Steps, sum.TotalEvals(), len(sum.Classes), seed, time.Since(start).Seconds())
 	}
 	return exit
+}
+
+// replayWitnesses re-executes findings/<id>-*.json under the property's monitors and merges the reports
+// into the summary (profile "witness"). A violation raised by a witness is a violation like any other.
+func replayWitnesses(id string, sum *Summary) []string {
+	files, _ := filepath.Glob(filepath.Join(verifDir, "findings", id+"-*.json"))
+	sort.Strings(files)
+	if len(files) == 0 {
+		return nil
+	}
+	def := checkDefs()[id]
+	w := NewWorld()
+	var notes []string
+	for i, f := range files {
+		h, err := LoadHistory(f)
+		if err != nil || h.Property != id {
+			notes = append(notes, "witness "+f+" unreadable")
+			continue
+		}
+		cause := strings.TrimSuffix(strings.TrimPrefix(filepath.Base(f), id+"-"), ".json")
+		rep := ReplayHistory(w, def, h, false)
+		rep.Profile, rep.Index = "witness", i
+		rep.Classes["witness."+cause] = 1
+		if len(rep.Viol) > 0 {
+			rep.Replay = f
+		}
+		if rep.Known[id+"/"+cause] == nil && len(rep.Viol) == 0 {
+			notes = append(notes, fmt.Sprintf("recorded finding %s/%s did not reproduce on its committed witness %s", id, cause, f))
+			rep.Classes["witness-not-reproduced."+cause] = 1
+		} else {
+			rep.Classes["witness-reproduced."+cause] = 1
+		}
+		rep.runner = nil
+		sum.Add(rep)
+	}
+	return notes
 }
 
 // ---- evidence ----------------------------------------------------------------------------------
@@ -810,6 +870,68 @@ func shrinkHistory(w *World, def *CheckDef, h *History, target, out string, budg
 		return ""
 	}
 	return out
+}
+
+// cmdWitness: shrink a history while it keeps exhibiting a recorded finding (and no violation).
+// usage: vmon witness <history.json> <cause> <out.json>
+func cmdWitness(args []string) int {
+	if len(args) < 3 {
+		fmt.Println("usage: vmon witness <history.json> <cause> <out.json>")
+		return 2
+	}
+	h, err := LoadHistory(args[0])
+	if err != nil {
+		fmt.Println(err)
+		return 2
+	}
+	def := checkDefs()[h.Property]
+	if def == nil {
+		return 2
+	}
+	key := h.Property + "/" + args[1]
+	w := NewWorld()
+	msg := ""
+	shows := func(steps []Step) bool {
+		hh := *h
+		hh.Steps = steps
+		rep := ReplayHistory(w, def, &hh, false)
+		if len(rep.Viol) > 0 || len(rep.Inconcl) > 0 || rep.Known[key] == nil {
+			return false
+		}
+		msg = rep.Known[key].Msg
+		return true
+	}
+	if !shows(h.Steps) {
+		fmt.Println("the history does not exhibit", key, "on this tree")
+		return 1
+	}
+	deadline := time.Now().Add(4 * time.Minute)
+	steps := append([]Step{}, h.Steps...)
+	for chunk := len(steps) / 2; chunk >= 1 && time.Now().Before(deadline); {
+		removed := false
+		for i := 0; i+chunk <= len(steps) && time.Now().Before(deadline); {
+			cand := append(append([]Step{}, steps[:i]...), steps[i+chunk:]...)
+			if shows(cand) {
+				steps = cand
+				removed = true
+			} else {
+				i += chunk
+			}
+		}
+		if !removed || chunk > len(steps) {
+			chunk /= 2
+		}
+	}
+	shows(steps)
+	hh := *h
+	hh.Steps = steps
+	hh.Note = "witness of recorded finding " + key + " (" + strconv.Itoa(len(steps)) + " steps, shrunk from " + strconv.Itoa(len(h.Steps)) + "): " + msg
+	if err := hh.Save(args[2]); err != nil {
+		fmt.Println(err)
+		return 2
+	}
+	fmt.Printf("%s: %d -> %d steps: %s\n", key, len(h.Steps), len(steps), msg)
+	return 0
 }
 
 // cmdShrink: delta-debugging over the steps of a witness history, keeping the violated assertion fixed.
